@@ -57,38 +57,57 @@ class Server:
         self.srv.stop(0)
 
 
-class _RecMC:
-    """wraps a multicallable; records every invocation with its timeout/metadata kwargs."""
+def _rec(log, kind, path, how, k):
+    md = k.get('metadata')
+    log.append(dict(ev='ChannelCall', kind=kind, path=path, how=how, timeout=k.get('timeout'),
+                    md=[(a, b) for a, b in (md or [])]))
 
-    def __init__(self, inner, kind, path, log):
-        self._inner, self._kind, self._path, self._log = inner, kind, path, log
 
-    def _rec(self, how, k):
-        md = k.get('metadata')
-        self._log.append(dict(ev='ChannelCall', kind=self._kind, path=self._path, how=how, timeout=k.get('timeout'),
-                              md=[(a, b) for a, b in (md or [])]))
+_PROXIES = {}
 
-    def __call__(self, *a, **k):
-        self._rec('call', k); return self._inner(*a, **k)
 
-    def with_call(self, *a, **k):
-        self._rec('with_call', k); return self._inner.with_call(*a, **k)
+def _proxy_class(base, kind):
+    """a recording multicallable that is an INSTANCE of the public grpc ABC of its arity (api-core dispatches its
+    error wrappers with isinstance on these ABCs)."""
+    key = (base, kind)
+    if key in _PROXIES:
+        return _PROXIES[key]
 
-    def future(self, *a, **k):
-        self._rec('future', k); return self._inner.future(*a, **k)
+    class P(base):
+        def __init__(self, inner, path, log):
+            self._inner, self._path, self._log = inner, path, log
 
-    def __getattr__(self, n):
-        return getattr(self._inner, n)
+        def __call__(self, *a, **k):
+            _rec(self._log, kind, self._path, 'call', k); return self._inner(*a, **k)
+
+        def with_call(self, *a, **k):
+            _rec(self._log, kind, self._path, 'with_call', k); return self._inner.with_call(*a, **k)
+
+        def future(self, *a, **k):
+            _rec(self._log, kind, self._path, 'future', k); return self._inner.future(*a, **k)
+
+        def __getattr__(self, n):
+            return getattr(self._inner, n)
+    P.__name__ = 'Rec' + base.__name__
+    _PROXIES[key] = P
+    return P
+
+
+_SYNC_BASES = dict(unary_unary=grpc.UnaryUnaryMultiCallable, unary_stream=grpc.UnaryStreamMultiCallable,
+                   stream_unary=grpc.StreamUnaryMultiCallable, stream_stream=grpc.StreamStreamMultiCallable)
+_AIO_BASES = dict(unary_unary=grpc.aio.UnaryUnaryMultiCallable, unary_stream=grpc.aio.UnaryStreamMultiCallable,
+                  stream_unary=grpc.aio.StreamUnaryMultiCallable, stream_stream=grpc.aio.StreamStreamMultiCallable)
 
 
 def record_channel(channel, log):
     """patch the factories of this channel INSTANCE; returns the same channel."""
+    bases = _AIO_BASES if isinstance(channel, grpc.aio.Channel) else _SYNC_BASES
     for kind in ('unary_unary', 'unary_stream', 'stream_unary', 'stream_stream'):
         orig = getattr(channel, kind)
 
         def factory(method, *a, _orig=orig, _kind=kind, **k):
             log.append(dict(ev='Factory', kind=_kind, path=method))
-            return _RecMC(_orig(method, *a, **k), _kind, method, log)
+            return _proxy_class(bases[_kind], _kind)(_orig(method, *a, **k), method, log)
         setattr(channel, kind, factory)
     return channel
 
